@@ -92,12 +92,20 @@ type Contracts struct {
 	SortAliases  map[string]SortAlias
 	Tracks       map[string]string // pkg::(Iface).Method -> ghost set of receivers it was called on
 	Monitors     map[string]*MonitorDecl // pkgpath.Type.field
+	ChanInvs     map[string]ChanInv      // pkgpath.Type.field: invariant of the messages travelling through that channel field
 	NeverSent    map[string]bool         // pkgpath.Type.field: channel-typed field nobody ever sends on (checked syntactically)
 	ImmHeapTypes []SortAlias             // Go types whose heap is never written after construction (declared; stores are obligations)
 }
 
 type SortAlias struct {
 	Name, Pkg, GoExpr string
+}
+
+// ChanInv: "chaninv T.f E" — E (over 'elem', the message, and 'self', the object holding the channel field) holds of
+// every message sent on the channel stored in field f: an obligation at every send, an assumption at every receive.
+type ChanInv struct {
+	Pkg string
+	C   Clause
 }
 
 type GlobalFact struct {
@@ -108,7 +116,7 @@ type GlobalFact struct {
 var clauseKeywords = map[string]bool{
 	"func": true, "requires": true, "ensures": true, "modifies": true, "preserves": true, "refinedby": true, "monitor": true, "protects": true, "track": true, "before": true, "panics": true, "maypanic": true, "nopanic": true,
 	"loop": true, "invariant": true, "decreases": true, "spec": true, "lemma": true, "induct": true,
-	"smt": true, "smtlate": true, "closed": true, "neversent": true, "immutableheap": true, "fieldinv": true, "inline": true, "sort": true, "global": true, "package": true, "ghost": true, "type": true, "trusted": true, "props": true, "use": true, "hdruse": true, "assert": true, "axiom": true, "pattern": true, "opaque": true,
+	"smt": true, "smtlate": true, "closed": true, "neversent": true, "chaninv": true, "immutableheap": true, "fieldinv": true, "inline": true, "sort": true, "global": true, "package": true, "ghost": true, "type": true, "trusted": true, "props": true, "use": true, "hdruse": true, "assert": true, "axiom": true, "pattern": true, "opaque": true,
 }
 
 var reFuncHdr = regexp.MustCompile(`^func\s+(.+)$`)
@@ -237,6 +245,17 @@ func (cs *Contracts) loadContractFile(path string, pkg string, goFile bool) erro
 				return err
 			}
 			cs.FieldInvs[pkg+"."+rest[:i]] = c
+			curF, curLoop, curL = nil, nil, nil
+		case "chaninv":
+			i := strings.Index(rest, " ")
+			if i < 0 {
+				return fmt.Errorf("%s:%d: chaninv Type.field EXPR", path, l.no)
+			}
+			c, err := mk(strings.TrimSpace(rest[i:]), l.no)
+			if err != nil {
+				return err
+			}
+			cs.ChanInvs[pkg+"."+rest[:i]] = ChanInv{Pkg: pkg, C: c}
 			curF, curLoop, curL = nil, nil, nil
 		case "package":
 			pkg = rest
@@ -568,7 +587,7 @@ func splitTopLevel(s string, sep rune) []string {
 
 func newContracts() *Contracts {
 	return &Contracts{Funcs: map[string]*FuncContract{}, Immut: map[string]bool{}, Closed: map[string][]string{},
-		ClosedIfaces: map[string]bool{}, FieldInvs: map[string]Clause{}, Inline: map[string]bool{}, SortAliases: map[string]SortAlias{}, Tracks: map[string]string{}, Monitors: map[string]*MonitorDecl{}, NeverSent: map[string]bool{}}
+		ClosedIfaces: map[string]bool{}, FieldInvs: map[string]Clause{}, Inline: map[string]bool{}, SortAliases: map[string]SortAlias{}, Tracks: map[string]string{}, Monitors: map[string]*MonitorDecl{}, NeverSent: map[string]bool{}, ChanInvs: map[string]ChanInv{}}
 }
 
 // loadSpecDir loads *.spec files (trusted / prelude) from a directory, in name order.
